@@ -392,7 +392,7 @@ pub fn disposals_equivalent(da: &Disposal, db: &Disposal, obs: &mut Obs) -> Resu
 /// With `ignore_leg_gain` the split of a disposal's gain over its legs is not compared (the
 /// disposal's total gain still is).
 pub fn disposals_equivalent_mode(da: &Disposal, db: &Disposal, obs: &mut Obs, ignore_leg_gain: bool) -> Result<(), String> {
-    if da.date != db.date || da.ticker != db.ticker {
+    if da.date != db.date || !da.ticker.eq_ignore_ascii_case(&db.ticker) {
         return Err(format!("disposal {} {} vs {} {}", da.ticker, da.date, db.ticker, db.date));
     }
     let id = format!("{} {}", da.ticker, da.date);
